@@ -4,6 +4,7 @@
   and a bucket of two or more frames of one width becomes the one sequence that is returned.
 -/
 import GfsProofs.CppScan
+import GfsProofs.PadLemmas
 
 namespace Gfs.Proofs.FindComplete
 open Gfs Gfs.Spec Gfs.Proofs Gfs.Proofs.CppScan
@@ -144,5 +145,84 @@ theorem find_complete (lookup : Bytes → DirSpec) (pat : Bytes) (st : PadStyle)
     · simpa [Seq.setPaddingStyle, Seq.setPadding] using k2
     · simpa [Seq.setPaddingStyle, Seq.setPadding] using k3
     · simp [Seq.setPaddingStyle, Seq.setPadding]
+
+/-- the width of the sequence the lookup builds from candidates of digit width `w` -/
+theorem built_zfill (st : PadStyle) (d b fr e : Bytes) (w : Nat) (hw : 1 ≤ w) (hfr : fr ≠ []) :
+    ((rebuild st d b fr (padChars st w) e).setPaddingStyle st).zfill = w := by
+  have hz : padSize st (padChars st (w : Int)) = w := padSize_padChars st _ (by omega)
+  have hpe : (padChars st ↑w).isEmpty = false := by
+    cases hq : padChars st ↑w with
+    | nil => exact absurd hq (ListAux.padChars_ne_nil st w)
+    | cons _ _ => rfl
+  have hfe : fr.isEmpty = false := by
+    cases fr with
+    | nil => exact absurd rfl hfr
+    | cons _ _ => rfl
+  unfold rebuild
+  simp only [hpe, hfe, Bool.false_eq_true, false_and, if_false]
+  unfold Seq.setFrameRange
+  split <;> simp [Seq.setPaddingStyle, Seq.setPadding, hz]
+
+/-- … and with StrictPadding: the same sequence when the pattern has no padding or its pad width
+    is the candidates' digit width, nothing otherwise -/
+theorem find_complete_strict (lookup : Bytes → DirSpec) (pat : Bytes) (st : PadStyle) (hidden : Bool)
+    (fs : Seq) (entries : List Entry) (w : Nat)
+    (hp : Seq.parse st pat = .ok fs) (hl : lookup (openDir fs.dir) = some entries)
+    (hnd : ∀ e ∈ entries, e.kind ≠ .dangling)
+    (toks : List Bytes)
+    (htoks : toks = candToks ⟨false, hidden, st⟩ fs
+        ((entries.filter fun e => e.kind = .file ∨ e.kind = .linkFile).map fun e => ⟨dirPrefix (openDir fs.dir), e.name⟩))
+    (h2 : 2 ≤ toks.length) (hw : ∀ tk ∈ toks, tk.length = w) (hw1 : 1 ≤ w)
+    (hfr : framesToFrameRange (toks.map atoiOr0) true 0 ≠ []) :
+    findSequenceOnDisk lookup pat st true hidden =
+      .ok (if fs.pad.isEmpty = false ∧ (w : Int) ≠ fs.zfill then none
+           else some ((rebuild st fs.dir fs.base (framesToFrameRange (toks.map atoiOr0) true 0)
+                        (padChars st w) fs.ext).setPaddingStyle st)) := by
+  obtain ⟨bs, hscan, hinv⟩ := scan_collects ⟨false, hidden, st⟩ fs
+    ((entries.filter fun e => e.kind = .file ∨ e.kind = .linkFile).map fun e => ⟨dirPrefix (openDir fs.dir), e.name⟩)
+    [] [] [] (Or.inl ⟨rfl, rfl⟩)
+  rw [List.nil_append, ← htoks] at hinv
+  have hne : toks ≠ [] := by intro h0; rw [h0] at h2; simp at h2
+  rcases hinv with ⟨ha, _⟩ | ⟨_, b, hb, hd, hbase, hext, hfrm, hnum, _⟩
+  · exact absurd ha hne
+  · subst hb
+    have hlen : 2 ≤ b.frames.length := by
+      have : b.frames.length = toks.length := by rw [← hfrm]; simp
+      omega
+    have hwb : ∀ f ∈ b.frames, f.frame.length = w := by
+      intro f hf
+      exact hw _ (by rw [← hfrm]; exact List.mem_map.2 ⟨f, hf, rfl⟩)
+    have hbs := Order.bucketSeqs_uniform st b w hlen hwb
+    have hany : (entries.any fun e => e.kind = .dangling) = false := by
+      rw [List.any_eq_false]
+      intro e he
+      simpa using hnd e he
+    have hkey : ∀ (r : Seq), r = rebuild st fs.dir fs.base (framesToFrameRange (toks.map atoiOr0) true 0)
+        (padChars st w) fs.ext → r.base = fs.base ∧ r.ext = fs.ext := by
+      intro r hr
+      subst hr
+      unfold rebuild
+      simp only
+      split
+      · simp [Seq.setPadding]
+      · unfold Seq.setFrameRange
+        split <;> simp [Seq.setPadding]
+    obtain ⟨k2, k3⟩ := hkey _ rfl
+    have hz := built_zfill st fs.dir fs.base (framesToFrameRange (toks.map atoiOr0) true 0) fs.ext w hw1 hfr
+    unfold findSequenceOnDisk scanDir findInItems
+    simp only [hp, hl, hany, Bool.false_eq_true, if_false]
+    rw [hscan]
+    simp only [bind, Except.bind, pure, Except.pure, List.map_cons, List.map_nil, List.flatten_cons,
+      List.flatten_nil, List.append_nil, hbs, hd, hbase, hext, hnum]
+    by_cases hc : fs.pad.isEmpty = false ∧ (w : Int) ≠ fs.zfill
+    · simp [k2, k3, hz, hc]
+    · simp only [hc, if_false]
+      have : ¬ (fs.pad.isEmpty = false ∧ (w : Int) ≠ fs.zfill) := hc
+      simp [k2, k3, hz]
+      intro h1
+      refine Classical.byContradiction fun h2' => this ⟨?_, h2'⟩
+      cases hq : fs.pad with
+      | nil => exact absurd hq h1
+      | cons _ _ => rfl
 
 end Gfs.Proofs.FindComplete
